@@ -1,6 +1,523 @@
-//! Property C17: correspondence and oracle (stub: nothing built yet).
-use crate::report::Report;
+//! Property C17: removal and injection rules change exactly what they name.
+//!
+//! For remove_assertions, remove_debug_profiling and inject_global_value, per program:
+//!  (1) correspondence: real `Rule::process` vs the Lean rule model (`c17.rule`) — trees identical;
+//!  (2) oracle, a refinement BETWEEN ENVIRONMENTS: outcome(real output, normal environment) must equal
+//!      outcome(prelude ++ input, normal environment) whenever the latter is error-free, where the
+//!      prelude installs the modified environment (`assert = function(...) return ... end`,
+//!      `debug = { profilebegin = function() end, profileend = function() end }`, `NAME = <value>`);
+//!      both sides run on the Lean reference semantics (`sem.run`);
+//!  (3) programs inside a listed defect region (decided by the Lean driver, `c17.hyp`, the same
+//!      predicates as the hypotheses of the `_partial` theorems) are exempt from (2); the witnesses
+//!      of `known_findings.json` are replayed and reported as KNOWN-FINDING while they still fail.
+use crate::astsexp;
+use crate::exec;
+use crate::model::{hex, Model};
+use crate::progen::{self, Features};
+use crate::progen_c17::{self, Target};
+use crate::report::{self, Report, Violation};
+use crate::rng::Rng;
+use crate::rulecheck::{shrink_lines, CaseResult, LEVEL};
+use darklua_core::nodes::Block;
+use darklua_core::rules::Rule;
+use serde_json::{json, Value};
 
-pub fn run(report: &mut Report, _replay: Option<&str>) {
-    report.notes.push("C17: no harness yet".to_owned());
+#[derive(Clone, Debug)]
+pub struct Cfg {
+    pub rule_name: &'static str,
+    /// JSON5 text of the rule configuration
+    pub rule_json: String,
+    /// properties for the Lean model: `(preserve b)` / `(inject name expr)`
+    pub props: String,
+    /// Lua text installing the modified environment in front of the INPUT
+    pub prelude_in: String,
+    /// Lua text in front of the OUTPUT (only `_G = {}` for injection: the semantics has no `_G`)
+    pub prelude_out: String,
+    /// whether the behavioural claim applies (not with `preserve_arguments_side_effects: false`)
+    pub oracle: bool,
+    pub target: Target,
+    pub label: String,
+}
+
+const ASSERT_PRELUDE: &str = "assert = function(...) return ... end\n";
+const PROFILING_PRELUDE: &str = "debug = { profilebegin = function() end, profileend = function() end }\n";
+
+fn lua_string(bytes: &[u8]) -> String {
+    let mut s = String::from("\"");
+    for b in bytes {
+        if b.is_ascii_alphanumeric() || *b == b' ' || *b == b'_' {
+            s.push(*b as char);
+        } else {
+            s.push_str(&format!("\\{:03}", b));
+        }
+    }
+    s.push('"');
+    s
+}
+
+/// Lua literal for a JSON value, written independently of darklua's conversion
+pub fn lua_of_json(v: &Value) -> String {
+    match v {
+        Value::Null => "nil".to_owned(),
+        Value::Bool(b) => b.to_string(),
+        Value::Number(n) => {
+            let f = n.as_f64().unwrap_or(0.0);
+            if f < 0.0 { format!("(-{:?})", -f) } else { format!("{:?}", f) }
+        }
+        Value::String(s) => lua_string(s.as_bytes()),
+        Value::Array(items) => format!("{{ {} }}", items.iter().map(lua_of_json).collect::<Vec<_>>().join(", ")),
+        Value::Object(map) => format!(
+            "{{ {} }}",
+            map.iter().map(|(k, v)| format!("[{}] = {}", lua_string(k.as_bytes()), lua_of_json(v))).collect::<Vec<_>>().join(", ")
+        ),
+    }
+}
+
+pub fn remove_cfg(rule_name: &'static str, preserve: bool) -> Cfg {
+    let rule_json = if preserve {
+        format!("'{}'", rule_name)
+    } else {
+        format!("{{ rule: '{}', preserve_arguments_side_effects: false }}", rule_name)
+    };
+    let (prelude_in, target) = if rule_name == "remove_assertions" {
+        (ASSERT_PRELUDE.to_owned(), Target::Assert)
+    } else {
+        (PROFILING_PRELUDE.to_owned(), Target::Profiling)
+    };
+    Cfg {
+        rule_name,
+        rule_json,
+        props: format!("(preserve {})", preserve),
+        prelude_in,
+        prelude_out: String::new(),
+        oracle: preserve,
+        target,
+        label: format!("{}{}", rule_name, if preserve { "" } else { ":no-preserve" }),
+    }
+}
+
+/// `None` when darklua rejects the configuration
+pub fn inject_cfg(name: &str, value: &Value) -> Option<Cfg> {
+    let rule_json = format!("{{ rule: 'inject_global_value', identifier: '{}', value: {} }}", name, value);
+    let rule = exec::rule_from_json(&rule_json).ok()?;
+    // read the value expression off the real rule: apply it to `return NAME`
+    let probe_code = format!("return {}", name);
+    let mut probe = exec::parse(&probe_code).ok()?;
+    exec::apply_rules(&mut probe, &[rule], &probe_code).ok()?;
+    let sexp = astsexp::block_to_sexp(&probe);
+    let expr = sexp.strip_prefix("(block () (return ")?.strip_suffix("))")?.to_owned();
+    let lua = lua_of_json(value);
+    Some(Cfg {
+        rule_name: "inject_global_value",
+        rule_json,
+        props: format!("(inject {} {})", hex(name.as_bytes()), expr),
+        prelude_in: format!("{} = {}\n_G = {{ {} = {} }}\n", name, lua, name, lua),
+        prelude_out: "_G = {}\n".to_owned(),
+        oracle: true,
+        target: Target::Inject { name: name.to_owned(), prefix_ok: value.is_string() || value.is_array() || value.is_object(), is_string: value.is_string() },
+        label: format!("inject_global_value:{}", json_kind(value)),
+    })
+}
+
+/// F34: values the untagged `RulePropertyValue` decodes as a `RequireMode`
+fn require_mode_region(v: &Value) -> bool {
+    match v {
+        Value::Array(items) => items.len() == 1 && matches!(items[0].as_u64(), Some(0) | Some(1)),
+        Value::Object(map) => map.contains_key("name"),
+        _ => false,
+    }
+}
+
+fn value_in_require_mode_region(rule_json: &str) -> bool {
+    json5::from_str::<Value>(rule_json).ok().and_then(|v| v.get("value").cloned()).map(|v| require_mode_region(&v)).unwrap_or(false)
+}
+
+fn json_kind(v: &Value) -> &'static str {
+    match v {
+        Value::Null => "null",
+        Value::Bool(_) => "bool",
+        Value::Number(n) => {
+            let f = n.as_f64().unwrap_or(0.0);
+            if f < 0.0 { "number-negative" } else if f.fract() != 0.0 { "number-fraction" } else { "number-integer" }
+        }
+        Value::String(_) => "string",
+        Value::Array(_) => "array",
+        Value::Object(_) => "object",
+    }
+}
+
+pub fn inject_values() -> Vec<Value> {
+    vec![
+        json!(true), json!(false), json!(null), json!(0), json!(1), json!(42), json!(-3), json!(0.5), json!(-1.25),
+        json!(1000), json!(0.001), json!(123456), json!(1e21), json!(""), json!("hello"), json!("a\"b\\c\nd"), json!("é"),
+        json!([1, 2, 3]), json!(["a", "b"]), json!(["a", true, 1, 0.5, -1.35]), json!([1, null, 3]), json!([]),
+        json!({"a": 1, "b": "x"}), json!({"k": [1, {"z": false}], "x": 2}), json!({}),
+    ]
+}
+
+fn with_prelude(prelude: &str, block: &Block) -> Block {
+    if prelude.is_empty() {
+        return block.clone();
+    }
+    let mut pre = exec::parse(prelude).expect("prelude parses");
+    let mut out = block.clone();
+    for (i, st) in pre.take_statements().into_iter().enumerate() {
+        out.insert_statement(i, st);
+    }
+    out
+}
+
+pub struct Judged {
+    pub fired: bool,
+    /// (outcome of prelude ++ input, outcome of output); None when the input is not error-free
+    pub outcomes: Option<(String, String)>,
+    pub sexp0: String,
+    pub sexp1: String,
+}
+
+/// Run the real rule and both sides of the oracle. Err = unusable input / rule error; Ok(None) = panic.
+fn judge(model: &mut Model, cfg: &Cfg, rules: &[Box<dyn Rule>], code: &str, want_oracle: bool) -> Result<Option<Judged>, &'static str> {
+    let block0 = exec::parse(code).map_err(|_| "parse")?;
+    let mut block1 = block0.clone();
+    let applied = std::panic::catch_unwind(std::panic::AssertUnwindSafe(|| exec::apply_rules(&mut block1, rules, code)));
+    match applied {
+        Ok(Ok(())) => {}
+        Ok(Err(_)) => return Err("rule-error"),
+        Err(_) => return Ok(None),
+    }
+    let sexp0 = astsexp::block_to_sexp(&block0);
+    let sexp1 = astsexp::block_to_sexp(&block1);
+    let mut outcomes = None;
+    if want_oracle {
+        let input_side = with_prelude(&cfg.prelude_in, &block0);
+        let o0 = exec::run_block(model, LEVEL, &input_side);
+        if exec::outcome_ok(&o0) {
+            let output_side = with_prelude(&cfg.prelude_out, &block1);
+            let o1 = exec::run_block(model, LEVEL, &output_side);
+            outcomes = Some((o0, o1));
+        }
+    }
+    Ok(Some(Judged { fired: sexp0 != sexp1, outcomes, sexp0, sexp1 }))
+}
+
+fn hyp_flags(model: &mut Model, cfg: &Cfg, sexp0: &str) -> String {
+    model.ask(&format!("c17.hyp {} {} {}", hex(cfg.rule_name.as_bytes()), cfg.props, sexp0))
+}
+
+fn model_rule(model: &mut Model, cfg: &Cfg, sexp0: &str) -> String {
+    model.ask(&format!("c17.rule {} {} {}", hex(cfg.rule_name.as_bytes()), cfg.props, sexp0))
+}
+
+/// does the real rule break the between-environments refinement on this program, inside H?
+fn oracle_fails_in_h(model: &mut Model, cfg: &Cfg, rules: &[Box<dyn Rule>], code: &str, require_h: bool) -> Option<(String, String, String)> {
+    let j = judge(model, cfg, rules, code, true).ok()??;
+    let (o0, o1) = j.outcomes?;
+    if o0 == o1 {
+        return None;
+    }
+    if require_h && hyp_flags(model, cfg, &j.sexp0) != "()" {
+        return None;
+    }
+    Some((o0, o1, j.sexp1))
+}
+
+/// One program through one configured rule: correspondence + oracle.
+pub fn check_program(model: &mut Model, report: &mut Report, cfg: &Cfg, code: &str) -> CaseResult {
+    let rule = match exec::rule_from_json(&cfg.rule_json) {
+        Ok(r) => r,
+        Err(e) => panic!("bad rule configuration {}: {}", cfg.rule_json, e),
+    };
+    let rules = vec![rule];
+    let j = match judge(model, cfg, &rules, code, cfg.oracle) {
+        Err(why) => return CaseResult::Skipped(why),
+        Ok(None) => {
+            report.violation(Violation {
+                kind: "oracle".into(),
+                check: format!("{}:panic", cfg.rule_name),
+                what: format!("rule {} panicked", cfg.rule_name),
+                input: json!({"rule": cfg.rule_json, "code": code}),
+                failing_input_found: true,
+            });
+            return CaseResult::Skipped("panic");
+        }
+        Ok(Some(j)) => j,
+    };
+    let flags = hyp_flags(model, cfg, &j.sexp0);
+    if !flags.starts_with('(') {
+        panic!("c17.hyp protocol error: {}", flags);
+    }
+    let in_h = flags == "()";
+    if !in_h {
+        for f in flags.trim_matches(|c| c == '(' || c == ')').split(' ') {
+            report.hist("defect_region_touched", f);
+        }
+    }
+
+    // ---- oracle (between environments)
+    let mut oracle_failed = false;
+    if cfg.oracle {
+        match &j.outcomes {
+            Some((o0, o1)) => {
+                report.count("oracle_compared", 1);
+                if !in_h {
+                    report.count("oracle_compared_inside_defect_region", 1);
+                    if o0 != o1 {
+                        report.count("defect_region_program_fails_oracle", 1);
+                    }
+                } else if o0 != o1 {
+                    oracle_failed = true;
+                    let mut fails = |text: &str| oracle_fails_in_h(model, cfg, &rules, text, true).is_some();
+                    let small = shrink_lines(code, &mut fails);
+                    let detail = oracle_fails_in_h(model, cfg, &rules, &small, true);
+                    report.violation(Violation {
+                        kind: "oracle".into(),
+                        check: format!("{}:refinement", cfg.label),
+                        what: format!(
+                            "output of {} in the normal environment behaves differently from the input in the modified environment (input error-free there, outside every listed defect region)",
+                            cfg.rule_name
+                        ),
+                        input: json!({"rule": cfg.rule_json, "code": small, "prelude_in": cfg.prelude_in, "prelude_out": cfg.prelude_out,
+                            "input_outcome_modified_env": detail.as_ref().map(|d| d.0.clone()),
+                            "output_outcome": detail.as_ref().map(|d| d.1.clone()),
+                            "output_tree": detail.as_ref().map(|d| d.2.clone())}),
+                        failing_input_found: true,
+                    });
+                }
+            }
+            None => {
+                report.count("oracle_skipped_input_not_error_free", 1);
+                if std::env::var("C17_DEBUG").is_ok() {
+                    let b0 = exec::parse(code).unwrap();
+                    let o = exec::run_block(model, LEVEL, &with_prelude(&cfg.prelude_in, &b0));
+                    report.notes.push(format!("NOT-ERROR-FREE {} :: {}\n{}", cfg.label, o, code));
+                }
+            }
+        }
+    }
+
+    // ---- correspondence with the Lean rule model
+    let answer = model_rule(model, cfg, &j.sexp0);
+    if answer == "unmodelled" {
+        report.count("correspondence_skipped_has_side_effects_unmodelled", 1);
+    } else {
+        report.count("correspondence_compared", 1);
+        if answer != j.sexp1 {
+            let mut differs = |text: &str| -> bool {
+                match judge(model, cfg, &rules, text, false) {
+                    Ok(Some(jj)) => {
+                        let a = model_rule(model, cfg, &jj.sexp0);
+                        a != "unmodelled" && a != jj.sexp1
+                    }
+                    _ => false,
+                }
+            };
+            let small = shrink_lines(code, &mut differs);
+            // is there a behavioural failure on the (shrunk or original) input?
+            let mut found = oracle_failed;
+            if !found && cfg.oracle {
+                found = oracle_fails_in_h(model, cfg, &rules, &small, true).is_some();
+            }
+            report.violation(Violation {
+                kind: "correspondence".into(),
+                check: format!("{}:model", cfg.label),
+                what: format!("Lean model of {} and the real rule produce different trees; the theorems about the model no longer speak about this code", cfg.rule_name),
+                input: json!({"rule": cfg.rule_json, "code": small, "model_answer_prefix": answer.chars().take(300).collect::<String>()}),
+                failing_input_found: found,
+            });
+        }
+    }
+    if j.fired { CaseResult::Fired } else { CaseResult::Trivial }
+}
+
+/// Replay the witnesses of known_findings.json: still failing → KNOWN-FINDING.
+fn replay_known(model: &mut Model, report: &mut Report) {
+    for entry in report::known_findings("C17") {
+        let id = entry["id"].as_str().unwrap_or("?").to_owned();
+        let w = &entry["witness"];
+        let (rule_json, code) = match (w["rule"].as_str(), w["code"].as_str()) {
+            (Some(r), Some(c)) => (r.to_owned(), c.to_owned()),
+            _ => continue,
+        };
+        let cfg = match cfg_of_rule_json(&rule_json) {
+            Some(c) => c,
+            None => continue,
+        };
+        let rules = vec![exec::rule_from_json(&cfg.rule_json).expect("known finding rule")];
+        if let Some((o0, o1, _)) = oracle_fails_in_h(model, &cfg, &rules, &code, false) {
+            let flags = match exec::parse(&code) {
+                Ok(b) => hyp_flags(model, &cfg, &astsexp::block_to_sexp(&b)),
+                Err(_) => "?".to_owned(),
+            };
+            let decided_by = entry["region_decided_by"].as_str().unwrap_or("c17.hyp");
+            let outside = match decided_by {
+                "configuration" => !value_in_require_mode_region(&rule_json),
+                "semantic" => false,
+                _ => flags == "()",
+            };
+            if outside {
+                report.violation(Violation {
+                    kind: "oracle".into(),
+                    check: format!("{}:known-finding-outside-region", id),
+                    what: format!("the witness of {} fails but is not inside any listed defect region", id),
+                    input: json!({"rule": rule_json, "code": code}),
+                    failing_input_found: true,
+                });
+            } else {
+                report.known_finding(&id, &format!(
+                    "{} — {} | input in the modified environment: {} | output: {} | regions {}",
+                    entry["site"].as_str().unwrap_or(""), entry["expected_wrong"].as_str().unwrap_or(""), o0, o1, flags));
+            }
+        }
+    }
+}
+
+/// rebuild a `Cfg` from the JSON5 rule text of a replay / known finding
+pub fn cfg_of_rule_json(rule_json: &str) -> Option<Cfg> {
+    let v: Value = json5::from_str(rule_json).ok()?;
+    let (name, obj) = match &v {
+        Value::String(s) => (s.clone(), None),
+        Value::Object(o) => (o.get("rule")?.as_str()?.to_owned(), Some(o)),
+        _ => return None,
+    };
+    let preserve = obj.and_then(|o| o.get("preserve_arguments_side_effects")).and_then(|b| b.as_bool()).unwrap_or(true);
+    match name.as_str() {
+        "remove_assertions" => Some(remove_cfg("remove_assertions", preserve)),
+        "remove_debug_profiling" => Some(remove_cfg("remove_debug_profiling", preserve)),
+        "inject_global_value" => {
+            let o = obj?;
+            inject_cfg(o.get("identifier")?.as_str()?, o.get("value").unwrap_or(&Value::Null))
+        }
+        _ => None,
+    }
+}
+
+fn run_replay(report: &mut Report, path: &str) {
+    let text = std::fs::read_to_string(path).expect("replay file");
+    let v: Value = serde_json::from_str(&text).expect("replay json");
+    let input = if v.get("input").is_some() { v["input"].clone() } else { v["witness"].clone() };
+    let (rule_json, code) = (input["rule"].as_str().unwrap_or("").to_owned(), input["code"].as_str().unwrap_or("").to_owned());
+    let mut model = Model::spawn();
+    match cfg_of_rule_json(&rule_json) {
+        Some(cfg) => {
+            let r = check_program(&mut model, report, &cfg, &code);
+            report.notes.push(format!("replay {}: {:?}", path, r));
+            report.case(Some((&cfg.label, &code)));
+        }
+        None => report.notes.push(format!("replay {}: cannot rebuild the rule configuration", path)),
+    }
+}
+
+fn all_cfgs(report: &mut Report) -> Vec<Cfg> {
+    let mut cfgs = vec![
+        remove_cfg("remove_assertions", true),
+        remove_cfg("remove_assertions", false),
+        remove_cfg("remove_debug_profiling", true),
+        remove_cfg("remove_debug_profiling", false),
+    ];
+    let names = ["DEBUG", "__DEV__", "VERSION"];
+    for (i, v) in inject_values().iter().enumerate() {
+        if require_mode_region(v) {
+            continue;
+        }
+        match inject_cfg(names[i % names.len()], v) {
+            Some(c) => cfgs.push(c),
+            None => report.hist("inject_value_rejected_by_darklua", &v.to_string()),
+        }
+    }
+    cfgs
+}
+
+pub fn run(report: &mut Report, replay: Option<&str>) {
+    if let Some(path) = replay {
+        run_replay(report, path);
+        return;
+    }
+    report.rule = "targeted generator (progen_c17): calls of assert / debug.profilebegin / debug.profileend and reads of the injected \
+        global (also _G.NAME, _G['NAME']) in statement, single-value, multi-value, operand, table-constructor and return position, 0..4 \
+        arguments pure or effectful per darklua's evaluator, multi-value last arguments, nested targeted calls, falsy first arguments, \
+        under shadowing of assert/debug/select/_G/NAME at every scope kind (do, while, repeat+condition, numeric for, generic for, if, \
+        function and method parameter, local function, local after use, escaping closure), as field/method of another table; x \
+        preserve_arguments_side_effects on/off x injected values of every JSON kind; plus the shared generator (Lua 5.1 and Luau). \
+        Each program: real Rule::process vs Lean model (trees), and outcome(real output) vs outcome(prelude ++ input) on the reference \
+        semantics when the latter is error-free and the program is outside the listed defect regions (c17.hyp). Non-trivial = the rule \
+        changed the tree; distinct by (configuration, program text)."
+        .to_owned();
+    {
+        let mut model = Model::spawn();
+        let rules = model.ask("c17.rules");
+        for r in ["remove_assertions", "remove_debug_profiling", "inject_global_value"] {
+            if !rules.split(' ').any(|m| m == r) {
+                panic!("Lean driver does not model {}", r);
+            }
+        }
+        replay_known(&mut model, report);
+        // corpus: minimised past disagreements and finding witnesses
+        let dir = concat!(env!("CARGO_MANIFEST_DIR"), "/../corpus/C17");
+        if let Ok(entries) = std::fs::read_dir(dir) {
+            let mut paths: Vec<_> = entries.filter_map(|e| e.ok()).map(|e| e.path()).collect();
+            paths.sort();
+            for p in paths {
+                if let Ok(text) = std::fs::read_to_string(&p) {
+                    if let Ok(v) = serde_json::from_str::<Value>(&text) {
+                        if let (Some(rule_json), Some(code)) = (v["rule"].as_str(), v["code"].as_str()) {
+                            if let Some(cfg) = cfg_of_rule_json(rule_json) {
+                                let r = check_program(&mut model, report, &cfg, code);
+                                report.hist("corpus", &format!("{:?}", r));
+                                report.case(Some((&cfg.label, code)));
+                            }
+                        }
+                    }
+                }
+            }
+        }
+    }
+    let cfgs = all_cfgs(report);
+    let per_thread: usize = if report.is_thorough() { 6000 } else { 600 };
+    let threads = 14;
+    let seed = report.seed;
+    let cfgs_ref = &cfgs;
+    report.parallel(threads, |tid, r| {
+        let mut model = Model::spawn();
+        let mut rng = Rng::new(seed.wrapping_mul(1000).wrapping_add(tid as u64).wrapping_add(17_000_000));
+        for i in 0..per_thread {
+            // rotate through the configurations so that every one is exercised by every thread
+            let slot = (i * threads + tid) % 20;
+            let cfg = match slot {
+                0..=6 => &cfgs_ref[0],
+                7 => &cfgs_ref[1],
+                8..=12 => &cfgs_ref[2],
+                13 => &cfgs_ref[3],
+                _ => &cfgs_ref[4 + (i * 7 + tid) % (cfgs_ref.len() - 4)],
+            };
+            let (code, used, origin) = if i % 8 == 7 {
+                let feat = if rng.chance(1, 2) { Features::lua51() } else { Features::luau() };
+                let (code, _) = progen::generate(&mut rng.fork(), feat, 40);
+                (code, Default::default(), "shared")
+            } else {
+                let defect_rate = if rng.chance(1, 4) { 8 } else { 0 };
+                let (code, used) = progen_c17::generate(&mut rng.fork(), cfg.target.clone(), 14, defect_rate);
+                (code, used, "targeted")
+            };
+            r.hist("generator", origin);
+            r.hist("configuration", &cfg.label);
+            let result = check_program(&mut model, r, cfg, &code);
+            match &result {
+                CaseResult::Fired => {
+                    for u in &used {
+                        r.hist("shapes", u);
+                    }
+                    r.hist("rule_fired", &cfg.label);
+                    r.case(Some((&cfg.label, &code)));
+                    if r.samples.len() < 2 {
+                        r.sample(json!({"rule": cfg.rule_json, "code": code}));
+                    }
+                }
+                CaseResult::Trivial => r.case(None::<u8>),
+                CaseResult::Skipped(why) => {
+                    r.hist("skipped", why);
+                    r.case(None::<u8>);
+                }
+            }
+        }
+    });
 }
